@@ -290,7 +290,7 @@ func cmdCheck(args []string) int {
 			}
 			keep := r.Obls[:0]
 			for _, o := range r.Obls {
-				if !base[o.Name] && noise[o.Name] && isSafetyKind(o.Kind) {
+				if !base[o.Name] && noise[o.Name] && (isSafetyKind(o.Kind) || o.Kind == "pre-of") {
 					continue
 				}
 				keep = append(keep, o)
